@@ -93,4 +93,51 @@ theorem gff_grouping (idKey : τ) (fs : List (GFeat τ)) (hok : ∀ f ∈ fs, GF
     · exact Or.inl hn)]
   rfl
 
+theorem gIdsOk_of_nodup (idKey : τ) (fs : List (GFeat τ))
+    (h : (fs.filterMap (fun f => gffIdOf idKey f.qual)).Nodup) : GIdsOk idKey fs := by
+  induction fs with
+  | nil => trivial
+  | cons f fs ih =>
+    cases fs with
+    | nil => trivial
+    | cons f' rest =>
+      have htail : ((f' :: rest).filterMap (fun f => gffIdOf idKey f.qual)).Nodup := by
+        cases hf : gffIdOf idKey f.qual with
+        | none => simpa [List.filterMap_cons, hf] using h
+        | some x =>
+          rw [List.filterMap_cons, hf] at h
+          exact (List.nodup_cons.mp h).2
+      refine ⟨?_, ih htail⟩
+      cases hf : gffIdOf idKey f.qual with
+      | none => exact Or.inl rfl
+      | some x =>
+        right
+        intro e
+        rw [List.filterMap_cons, hf] at h
+        have hx := (List.nodup_cons.mp h).1
+        apply hx
+        rw [List.filterMap_cons, ← e]
+        simp
+
+/-- what `set_annotation` accepts is grouped back by `get_annotation` into the same features -/
+theorem gff_grouping_accepted (idKey : τ) (fs : List (GFeat τ)) (es : List (GEnt τ))
+    (hacc : gffSetAnnotE idKey fs = .ok es) (hl : ∀ f ∈ fs, f.locs ≠ []) : gffGroup idKey es = fs := by
+  unfold gffSetAnnotE at hacc
+  split at hacc
+  · cases hacc
+  · rename_i hnd
+    split at hacc
+    · cases hacc
+    · rename_i hany
+      injection hacc with hacc
+      subst hacc
+      have hnd' := Decidable.of_not_not hnd
+      apply gff_grouping idKey fs _ (gIdsOk_of_nodup idKey fs hnd')
+      intro f hf
+      refine ⟨hl f hf, ?_⟩
+      intro hlen hnone
+      apply hany
+      rw [List.any_eq_true]
+      exact ⟨f, hf, by simp [hlen, hnone]⟩
+
 end BiotiteModel.C12
